@@ -392,6 +392,46 @@ fn child(a: &Args) {
         };
         all.push(finish(0, 2 * ki + 1, ki, rb, t0, full));
     }
+    // (a') two live instances of the same kind fed ALTERNATELY, item by item, in one thread (entry "item" through the adapters):
+    // each must still give the sketch of its own input (instances share nothing)
+    for (ki, k) in keys.iter().enumerate() {
+        if k.entry != "item" || k.kind.starts_with("dens") || k.kind.starts_with("rev") || k.kind.starts_with("ord2") {
+            continue;
+        }
+        let its = &inputs[ki];
+        let t0 = TICK.fetch_add(1, Ordering::SeqCst);
+        let res = catch(|| {
+            let cfg = Cfg { kind: k.kind.clone(), m: k.m, ss: k.ss };
+            let mut a1 = make(&cfg);
+            let mut b1 = make(&cfg);
+            let mut oa = O_OK;
+            // the second instance receives the same items in reverse order, interleaved with the first
+            let n = its.len();
+            for i in 0..n {
+                let r = a1.sketch(&its[i]);
+                if r != O_OK {
+                    oa = r;
+                }
+                b1.sketch(&its[n - 1 - i]);
+            }
+            let mut bits = vec![outcome_code(oa)];
+            bits.extend(a1.public_bits());
+            (bits, None)
+        });
+        all.push(finish(100, ki, ki, res, t0, full));
+    }
+    // (a'') an unrelated instance deliberately re-seeds itself (change_rng_seed); instances constructed AFTERWARDS with the
+    // same parameters must still give the same sketches as everywhere else
+    {
+        let mut other = ProbOrdMinHash2::<FnvHasher>::new(8, 2);
+        other.change_rng_seed();
+        let _ = other.hash_set(&[1u64, 2, 3, 4]);
+        for (ki, k) in keys.iter().enumerate() {
+            if k.kind.starts_with("ord2") {
+                all.push(one(101, ki, ki, k, &inputs[ki], full));
+            }
+        }
+    }
     // (b) threads: own instances, own order, started together
     let barrier = Arc::new(Barrier::new(nthreads));
     let mut handles = Vec::new();
